@@ -2,8 +2,9 @@ SPECIFICATION Spec
 CONSTANTS P = 4
           J = 2
           Horizon = 40
+          ListFailureUsesDirAge = FALSE
           SweepStopsWriter = FALSE
           StopOnWriteError = FALSE
           MaxFaults = 1
-INVARIANTS LiveNeverStale DeadBecomesStale
+INVARIANTS LiveNeverReportedStale LiveNeverStale DeadBecomesStale
 CHECK_DEADLOCK FALSE
